@@ -1,1 +1,188 @@
-From V Require Export C20_Model.
+(* C20_Props.v — the property theorems of C20 and nothing else.
+   Histories are ARBITRARY lists of operations on one compressor / decompressor instance; byte
+   strings are arbitrary.  The third-party codec is ANY reader / writer object with a view
+   function satisfying the contract of C20_Spec.v (lib_contract / wlib_contract). *)
+From V Require Import C20_Spec C20_Proofs C20_Names C20_Consts.
+Open Scope N_scope.
+
+(* Session independence, for each of the six encodings: whatever was done to the instance before
+   (failed sessions on malformed input, Close, Close twice, reads without Reset, reads abandoned
+   half-way), as long as it did not panic, `Reset s; ReadAll` returns exactly what a FRESH library
+   reader returns on s: the decoded bytes, or an error iff a fresh reader fails.  A bad message never
+   makes a later message fail or decode differently. *)
+Theorem session_independent :
+  forall inst dec view l_zero l_new l_reset l_read l_close,
+  lib_contract inst dec view l_zero l_new l_reset l_read l_close ->
+  forall k, kind_needs k dec view l_new l_reset ->
+  forall h s,
+  no_crash (d_run inst l_new l_reset l_read l_close (d_init inst l_zero k) h) ->
+  exists r,
+    d_run inst l_new l_reset l_read l_close (d_init inst l_zero k) (h ++ [DReset s; DRead None])
+    = d_run inst l_new l_reset l_read l_close (d_init inst l_zero k) h
+      ++ [OU (reset_result k (dec_of k dec s)); OR r]
+    /\ fresh_read (dec_of k dec s) r.
+Proof. exact session_independent_proof. Qed.
+Print Assumptions session_independent.
+
+(* No decompressor panics on any history whose first operation is a Reset — malformed sources
+   included, Close / Read after a failed Reset included. *)
+Theorem no_crash_after_reset :
+  forall inst dec view l_zero l_new l_reset l_read l_close,
+  lib_contract inst dec view l_zero l_new l_reset l_read l_close ->
+  forall k, kind_needs k dec view l_new l_reset ->
+  forall h, starts_with_reset h ->
+  no_crash (d_run inst l_new l_reset l_read l_close (d_init inst l_zero k) h).
+Proof. exact no_crash_proof. Qed.
+Print Assumptions no_crash_after_reset.
+
+(* ... in particular none that connect-go's pools produce (Reset, reads, Close, Reset(NoBody), ...) *)
+Theorem pool_no_crash :
+  forall inst dec view l_zero l_new l_reset l_read l_close,
+  lib_contract inst dec view l_zero l_new l_reset l_read l_close ->
+  forall k, kind_needs k dec view l_new l_reset ->
+  forall h, pool_history h ->
+  no_crash (d_run inst l_new l_reset l_read l_close (d_init inst l_zero k) h).
+Proof.
+  intros inst dec view l_zero l_new l_reset l_read l_close C k Hk h P.
+  destruct (pool_starts_with_reset h P) as [->|S]; [intros o []|].
+  exact (no_crash_proof inst dec view l_zero l_new l_reset l_read l_close C k Hk h S).
+Qed.
+Print Assumptions pool_no_crash.
+
+(* Compressors: after ANY history that did not panic, `Reset d; Write*; Close` succeeds and leaves in d
+   something that a fresh reader decodes to exactly the concatenation of the writes (empty included). *)
+Theorem compress_session :
+  forall winst dec wv w_zero w_reset w_write w_close,
+  wlib_contract dec winst wv w_reset w_write w_close ->
+  forall k ws h1, Forall is_write ws ->
+  (forall u, In u (fst (c_run winst w_reset w_write w_close (c_init winst w_zero k) [] h1)) -> u <> UCrash) ->
+  let r := c_run winst w_reset w_write w_close (c_init winst w_zero k) [] (h1 ++ CReset :: ws ++ [CClose]) in
+  fst r = fst (c_run winst w_reset w_write w_close (c_init winst w_zero k) [] h1)
+          ++ UOk :: repeat UOk (length ws) ++ [UOk] /\
+  dec_of k dec (last (snd r) []) = Body (written ws) false.
+Proof. exact compress_session_proof. Qed.
+Print Assumptions compress_session.
+
+(* a compressor whose first operation is a Reset (as in the pools) never panics *)
+Theorem compress_no_crash :
+  forall winst dec wv w_zero w_reset w_write w_close,
+  wlib_contract dec winst wv w_reset w_write w_close ->
+  forall k h u, In u (fst (c_run winst w_reset w_write w_close (c_init winst w_zero k) [] (CReset :: h))) -> u <> UCrash.
+Proof. exact compress_no_crash_proof. Qed.
+Print Assumptions compress_no_crash.
+
+(* Round trip with reused instances on both sides: the output of a compressor session that follows ANY
+   compressor history, fed to a decompressor that went through ANY history (neither panicked), decodes
+   to what was written — for every byte string, the empty one included, for each of the six encodings. *)
+Theorem round_trip :
+  forall inst dec view l_zero l_new l_reset l_read l_close winst wv w_zero w_reset w_write w_close,
+  lib_contract inst dec view l_zero l_new l_reset l_read l_close ->
+  wlib_contract dec winst wv w_reset w_write w_close ->
+  forall k, kind_needs k dec view l_new l_reset ->
+  forall hc ws hd, Forall is_write ws ->
+  (forall u, In u (fst (c_run winst w_reset w_write w_close (c_init winst w_zero k) [] hc)) -> u <> UCrash) ->
+  no_crash (d_run inst l_new l_reset l_read l_close (d_init inst l_zero k) hd) ->
+  let c := last (snd (c_run winst w_reset w_write w_close (c_init winst w_zero k) [] (hc ++ CReset :: ws ++ [CClose]))) [] in
+  d_run inst l_new l_reset l_read l_close (d_init inst l_zero k) (hd ++ [DReset c; DRead None])
+  = d_run inst l_new l_reset l_read l_close (d_init inst l_zero k) hd ++ [OU UOk; OR (ROk (written ws))].
+Proof.
+  intros inst dec view l_zero l_new l_reset l_read l_close winst wv w_zero w_reset w_write w_close
+         C W k Hk hc ws hd F NCc NCd c.
+  destruct (compress_session_proof winst dec wv w_zero w_reset w_write w_close W k ws hc F NCc) as (_ & D).
+  fold c in D.
+  destruct (session_independent_proof inst dec view l_zero l_new l_reset l_read l_close C k Hk hd c NCd)
+    as (r & E & FR).
+  rewrite D in E, FR. simpl in FR. subst r. exact E.
+Qed.
+Print Assumptions round_trip.
+
+(* ... spelled out for "right after the same instance failed on malformed input": *)
+Theorem bad_then_good :
+  forall inst dec view l_zero l_new l_reset l_read l_close,
+  lib_contract inst dec view l_zero l_new l_reset l_read l_close ->
+  forall k, kind_needs k dec view l_new l_reset ->
+  forall h bad good x,
+  no_crash (d_run inst l_new l_reset l_read l_close (d_init inst l_zero k) (h ++ [DReset bad; DRead None])) ->
+  dec_of k dec good = Body x false ->
+  d_run inst l_new l_reset l_read l_close (d_init inst l_zero k) ((h ++ [DReset bad; DRead None]) ++ [DReset good; DRead None])
+  = d_run inst l_new l_reset l_read l_close (d_init inst l_zero k) (h ++ [DReset bad; DRead None])
+    ++ [OU UOk; OR (ROk x)].
+Proof.
+  intros inst dec view l_zero l_new l_reset l_read l_close C k Hk h bad good x NC D.
+  destruct (session_independent_proof inst dec view l_zero l_new l_reset l_read l_close C k Hk _ good NC)
+    as (r & E & FR).
+  rewrite D in E, FR. simpl in FR. subst r. exact E.
+Qed.
+Print Assumptions bad_then_good.
+
+(* The name tables of the five places, REGENERATED from the compiled code into C20_Consts.v on every run:
+   every (name, algorithm) pair that any place asserts is the registered one ... *)
+Theorem names_agree : forall p, In p all_pairs -> denotes_ok p.
+Proof. exact names_agree_proof. Qed.
+Print Assumptions names_agree.
+(* ... so the same name never denotes two algorithms ... *)
+Theorem names_functional : forall n a b, In (n, a) all_pairs -> In (n, b) all_pairs -> a = b.
+Proof. exact names_functional_proof. Qed.
+Print Assumptions names_functional.
+(* ... every place knows all six names (the client: the five it can be asked to send with) ... *)
+Theorem names_covered :
+  covers pairs_compression 1 /\ covers pairs_tracer 1 /\ covers pairs_check 1 /\
+  covers pairs_server 1 /\ covers pairs_client 2 /\ covers pairs_raw 1.
+Proof. exact names_covered_proof. Qed.
+Print Assumptions names_covered.
+(* ... and the tables of C20_Model.v that the differential run compares the code with are those. *)
+Theorem model_tables_are_the_codes : model_tables_match.
+Proof. exact model_tables_match_proof. Qed.
+Print Assumptions model_tables_are_the_codes.
+
+(* ---- the hypotheses are inhabited: the stand-in codec used for extraction satisfies the contract ---- *)
+Example contract_inhabited :
+  forall loud closed_ok,
+  lib_contract lview toy_dec (fun v => v) NoSrc toy_new (toy_reset closed_ok) (toy_read loud) toy_close.
+Proof. exact toy_contract. Qed.
+Example wcontract_inhabited : wlib_contract toy_dec wview toy_wv toy_wreset toy_wwrite toy_wclose.
+Proof. exact toy_wcontract. Qed.
+Example needs_inhabited : forall k, kind_needs k toy_dec (fun v : lview => v) toy_new (toy_reset (kind_closed_ok k)).
+Proof. exact toy_needs. Qed.
+
+(* ---- non-vacuity / necessity of premises ---- *)
+Definition x := bs "hello".
+Definition trun k := d_run lview toy_new (toy_reset (kind_closed_ok k)) (toy_read (kind_loud k)) toy_close (toy_d_init k).
+(* zstd: reuse after Close re-creates the decoder *)
+Example ex_zstd_reuse_after_close :
+  trun KZstd [DReset (toy_enc x); DRead None; DClose; DRead None; DReset (toy_enc x); DRead None]
+  = [OU UOk; OR (ROk x); OU UOk; OR (ROk []); OU UOk; OR (ROk x)].
+Proof. vm_compute. reflexivity. Qed.
+(* deflate: the parked sentinel answers until the next Reset *)
+Example ex_deflate_sentinel :
+  trun KDeflate [DReset [0]; DRead None; DClose; DReset (toy_enc x); DRead None]
+  = [OU UErr; OR RErr; OU UErr; OU UOk; OR (ROk x)].
+Proof. vm_compute. reflexivity. Qed.
+(* gzip (repaired): Close after a failed first Reset is harmless *)
+Example ex_gzip_close_after_failed_reset :
+  trun KGzip [DReset [0]; DClose; DReset (toy_enc []); DRead None] = [OU UErr; OU UOk; OU UOk; OR (ROk [])].
+Proof. vm_compute. reflexivity. Qed.
+(* a body error, then a valid message; an empty payload round-trips *)
+Example ex_bad_then_good :
+  trun KBrotli [DReset (2 :: x); DRead None; DReset (toy_enc x); DRead None]
+  = [OU UOk; OR RErr; OU UOk; OR (ROk x)].
+Proof. vm_compute. reflexivity. Qed.
+(* the premise of no_crash_after_reset is needed: the identity wrappers and brotli / snappy panic
+   when read before any Reset (nil embedded interface / nil source) *)
+Example ex_read_before_reset_panics :
+  trun KIdent [DRead None] = [OR RCrash] /\ trun KIdent [DClose] = [OU UCrash] /\
+  trun KSnappy [DRead None] = [OR RCrash] /\ trun KZstd [DRead None] = [OR RErr].
+Proof. vm_compute. auto. Qed.
+Example ex_pool_history :
+  pool_history [DReset (toy_enc x); DRead (Some 3); DRead None; DClose; DReset []; DReset [0]].
+Proof.
+  apply (ph_session (toy_enc x) [DRead (Some 3); DRead None] [DReset [0]]).
+  - repeat constructor; eexists; reflexivity.
+  - apply ph_dropped_at_get.
+Qed.
+Example ex_compress :
+  c_run wview toy_wreset toy_wwrite toy_wclose (toy_c_init KGzip) [] [CReset; CWrite x; CWrite []; CClose; CReset; CClose]
+  = ([UOk; UOk; UOk; UOk; UOk; UOk], [[]; toy_enc x; toy_enc []]).
+Proof. vm_compute. reflexivity. Qed.
+Example ex_names : In (bs "br", 3%Z) all_pairs /\ In (bs "zstd", 4%Z) pairs_tracer /\ tracer_alg (bs "X-Gzip") = 0%Z.
+Proof. vm_compute. intuition. Qed.
